@@ -20499,6 +20499,34 @@ pub mod verif_hooks {
 		}
 	}
 
+	/// Overwrites the channel-state flags the acceptance of a `revoke_and_ack` depends on, then runs the real
+	/// `FundedChannel::revoke_and_ack` on a live channel; returns whether the message was accepted.
+	pub fn revoke_and_ack_probe<SP: SignerProvider, F: FeeEstimator, L: Logger>(
+		chan: &mut FundedChannel<SP>, msg: &msgs::RevokeAndACK, awaiting_remote_revoke: bool,
+		monitor_update_in_progress: bool, peer_disconnected: bool,
+		fee_estimator: &LowerBoundedFeeEstimator<F>, logger: &L,
+	) -> bool
+	where
+		SP::EcdsaSigner: EcdsaChannelSigner,
+	{
+		if awaiting_remote_revoke {
+			chan.context.channel_state.set_awaiting_remote_revoke();
+		} else {
+			chan.context.channel_state.clear_awaiting_remote_revoke();
+		}
+		if monitor_update_in_progress {
+			chan.context.channel_state.set_monitor_update_in_progress();
+		} else {
+			chan.context.channel_state.clear_monitor_update_in_progress();
+		}
+		if peer_disconnected {
+			chan.context.channel_state.set_peer_disconnected();
+		} else {
+			chan.context.channel_state.clear_peer_disconnected();
+		}
+		chan.revoke_and_ack(msg, fee_estimator, logger, false).is_ok()
+	}
+
 	/// `[included_in_commitment(generated_by_local), preimage().is_some()]` of the real state enums
 	pub fn inbound_state_table(tag: u8, reason: u8, generated_by_local: bool) -> [bool; 2] {
 		let st = inbound_state(tag, reason);
